@@ -49,6 +49,15 @@ ASSUMPTIONS = ['SMARTS text is ASCII and contains no whitespace before the CX bl
                'atoms handed to __eq__ are instances of a periodic-table Element subclass (so they have is_forming_single_bonds)',
                'ring sizes of an atom are taken from MoleculeContainer.sssr (ring perception itself is property C06)']
 
+SEARCH_ALWAYS_IN_THOROUGH = True
+
+# constructs the documentation names as unsupported / out of range: each must be rejected with IncorrectSmarts
+MUST_REJECT = ['[C&D2]', '[C;D2&h1]', '[C,N&O]', '[!C]', '[C;!D2]', '[C;!r5]', '[C;R]', '[C;R2]', '[C;X2]', '[C;v4]', '[C;H1]', '[C;$(CC)]',
+               '[C;D1,h1]', '[C;r5,D2]', '[C;D15]', '[C;h15]', '[C;x15]', '[C;z0]', '[C;z5]', '[C;r2]', '[C;r1]', '[C;r0]', '[C;D]', '[C;r]',
+               '[C+5]', '[C-5]', '[;D2]', '[]', '[C]!~[C]', '[C]-,=,#[C]', '[C]@[C]', '[C]!@[C]', '[C];@[C]', '[C];!@[C]', '[C]-;@@[C]',
+               '[C]-;!!@[C]', '[C]--[C]', '[C]-', '-[C]', '[C]!', '[C]-,[C]', '[Xx]', '[C,Xx]', '[#0]', '[#119]', '[M+]', '[M;h1]', '[M;r5]',
+               '[M;x1]', '[2A]', '[13C,N]']
+
 BRACKET_ALPHABET = 'CNOM#A,;!RahDrxz123+-:@&5'
 BOND_ALPHABET = '-=#:~/\\.;,!@'
 
@@ -538,16 +547,23 @@ def stream_eq(ctx, programs):
     envs = environments(ctx)
     qs = build_queries(ctx)
     programs.update(['QueryElement.__eq__', 'AnyElement.__eq__', 'ListElement.__eq__', 'AnyMetal.__eq__'])
-    env_ints = []
-    for k, a, _ in envs:
-        env_ints += list(k)
+    all_envs = envs
     lines, reals = [], []
-    for text, q in qs:
+    cap = 1200          # environments per request line (the driver is stateless: every line carries its environments)
+    for qn, (text, q) in enumerate(qs):
         try:
             qi = enc_qatom(q)
         except Exception as e:
             disagree(ctx, 'eq/encode', f'{text}: {type(e).__name__} {e}', {'kind': 'eq', 'query': text})
             continue
+        if len(all_envs) <= cap:
+            envs = all_envs
+        else:   # rotate through the environment table so that every environment meets queries of every family
+            start = (qn * 997) % len(all_envs)
+            envs = (all_envs + all_envs)[start:start + cap]
+        env_ints = []
+        for k, a, _ in envs:
+            env_ints += list(k)
         bits = []
         for k, a, _ in envs:
             try:
@@ -556,9 +572,9 @@ def stream_eq(ctx, programs):
             except Exception as e:
                 bits.append('E')
         lines.append(line('eq', qi + [len(envs)] + env_ints))
-        reals.append((text, qi, ''.join(bits)))
+        reals.append((text, qi, ''.join(bits), envs))
     resp = core.run_driver('C08', lines)
-    for (text, qi, real), model in zip(reals, resp):
+    for (text, qi, real, envs), model in zip(reals, resp):
         constrained = any(qi[i] for i in range(len(qi)))
         for j, (k, a, _) in enumerate(envs):
             ctx.count(('eq', tuple(qi), k), nontrivial=constrained)
@@ -758,6 +774,13 @@ def stream_smarts(ctx, programs):
     cases += [('[C]' + b, []) for b in bond_strings(ctx) if 0 < len(b) <= 3]
     cases += chain_strings(ctx)
     cases += [('[C]', [1]), ('[C][C]', [0, 1]), ('[C][C]', [2]), ('[M]', [0]), ('[A;D2]', [0]), ('[C:1][C:1]', []), ('[C:2][C]', [])]
+    cases += [(t, []) for t in MUST_REJECT]
+    for t in MUST_REJECT:   # property-level, needs no model: documented-unsupported constructs are rejected with IncorrectSmarts
+        out = real_smarts_outcome(t)
+        ctx.count(('must-reject', t))
+        if out[0] == 'ok':
+            ctx.fail('C08/unsupported-construct-accepted', f'smarts({t!r}) is accepted although the documentation excludes it',
+                     {'kind': 'must_reject', 'smarts': t})
     lines = [line('sm', L(rad) + cps(s)) for s, rad in cases]
     resp = core.run_driver('C08', lines)
     kind_diff = 0
@@ -816,7 +839,12 @@ def stream_mapping(ctx, programs):
             disagree(ctx, 'mapping/query-construction', f'{text}: {type(e).__name__}', {'kind': 'accept', 'smarts': text})
             continue
         qn = list(q._atoms)
-        for name, m in rng.sample(mols, min(len(mols), 6 if ctx.quick else 25)):
+        base = 6 if ctx.quick else 25
+        cand = rng.sample(mols, min(len(mols), base * 3))
+        hits_seen = 0
+        for ci, (name, m) in enumerate(cand):
+            if ci >= base and hits_seen >= 2:     # after the base sample keep looking only until two molecules matched
+                break
             if id(m) not in mol_ints:
                 m.calc_labels()
                 mol_ints[id(m)] = mol_rings_ints(m)
@@ -825,6 +853,7 @@ def stream_mapping(ctx, programs):
             except Exception as e:
                 disagree(ctx, 'mapping/raises', f'{text} on {name}: {type(e).__name__}: {e}', {'kind': 'match', 'smarts': text, 'mol': wire.mol_to_ints(m)})
                 continue
+            hits_seen += bool(maps)
             if len(qn) == 1:
                 real = 'ok ' + ' '.join(map(str, sorted(mp[qn[0]] for mp in maps)))
                 op = 'm1'
@@ -1116,7 +1145,7 @@ def search(ctx):
     import time
     from ..gen import pyx2py
     pyx2py.install()
-    t_end = time.time() + (60 if ctx.quick else 600)
+    t_end = time.time() + (60 if ctx.quick else (600 if ctx.broken else 150))
     rng = ctx.rng
     seeds = [c for _, c in _state.get('disagreements', [])]
     texts = []
@@ -1125,6 +1154,14 @@ def search(ctx):
             texts.append(c['smarts'])
         if c.get('query', '').startswith('['):
             texts.append(c['query'])
+    # 0. constructs the documentation excludes must be rejected (with IncorrectSmarts)
+    for t in MUST_REJECT:
+        out = real_smarts_outcome(t)
+        if out[0] == 'ok':
+            ctx.fail('C08/unsupported-construct-accepted', f'smarts({t!r}) is accepted although the documentation excludes it',
+                     {'kind': 'must_reject', 'smarts': t})
+        elif out[1] != 'IncorrectSmarts':
+            ctx.fail(f'C08/reject-kind/{out[1]}', f'smarts({t!r}) raises {out[1]}, not IncorrectSmarts', {'kind': 'reject', 'smarts': t})
     # 1. reader: rejection kind + documented atoms accepted with the documented meaning
     pool = list(dict.fromkeys(texts + [f'[{s}]' for s in grammar_atoms(ctx, 1500)] + [t for t, _ in primitive_queries(ctx)]))
     for t in pool:
@@ -1163,6 +1200,10 @@ def search(ctx):
                 break
     # 3. bonds: two-atom patterns, documented meaning of the bond token
     bond_search(ctx, t_end, texts)
+    # 3b. cis/trans marks: a query with direction marks matches exactly the molecules of the same configuration
+    for bad in check_cistrans():
+        ctx.fail('C08/cis-trans-mark-misread', bad[1], {'kind': 'cistrans', 'smarts': bad[0][0], 'smiles': bad[0][1]})
+        break
     # 4. from_atom reflexivity on real molecule atoms
     from chython.periodictable import QueryElement
     for name, m in mols[:200]:
@@ -1196,19 +1237,23 @@ def check_bond(btok, ring, mol):
     a, b = list(q._atoms)
     got = {(mp[a], mp[b]) for mp in q.get_mapping(mol, automorphism_filter=False, _cython=False)}
     adj = {k: [m for m, bb in v.items() if bb.order != 8] for k, v in mol._bonds.items()}
-    exp = set()
+    exp, undet = set(), set()
     for n, ms in mol._bonds.items():
         for m, bb in ms.items():
             if mol._atoms[n].charge or mol._atoms[m].charge or mol._atoms[n].is_radical or mol._atoms[m].is_radical:
                 continue
             if bb.order not in orders:
                 continue
+            if ring is not None and bb.order == 8:
+                # ring perception ignores coordination bonds; the library marks such a bond `in_ring` when its two atoms share a
+                # covalent ring (a transannular coordinate bond). Whether that is a "ring bond" is not documented: undetermined.
+                undet.add((n, m))
+                continue
             if ring is not None:
-                # coordination bonds are ignored by ring perception: never ring bonds.
                 # a bond is a ring bond iff it lies on a cycle: removing it leaves its ends connected
                 seen, st = {n}, [n]
                 conn = False
-                while st and not conn and bb.order != 8:
+                while st and not conn:
                     x = st.pop()
                     for y in adj[x]:
                         if (x, y) in ((n, m), (m, n)):
@@ -1222,8 +1267,41 @@ def check_bond(btok, ring, mol):
                 if conn != ring:
                     continue
             exp.add((n, m))
-    got = {(x, y) for x, y in got}
-    return text, exp, got
+    got = {(x, y) for x, y in got} - undet
+    return text, exp - undet, got
+
+
+def cistrans_case(q_text, m_text):
+    """(expected, got) for one pattern / molecule pair written with the same direction-mark convention"""
+    from chython import smarts, smiles
+    marks = lambda t: [c for c in t if c in '/\\']
+    qa, qc = marks(q_text)
+    mm = marks(m_text)
+    q = smarts(q_text)
+    m = smiles(m_text)
+    got = bool(list(q.get_mapping(m, automorphism_filter=False, _cython=False)))
+    exp = len(mm) == 2 and ((qa == qc) == (mm[0] == mm[1]))
+    return exp, got
+
+
+def check_cistrans():
+    bad = []
+    for x, y in (('F', 'F'), ('Cl', 'Br'), ('N', 'O')):
+        for btok in ('=', '=,#', '=;!@'):
+            for a in '/\\':
+                for c in '/\\':
+                    qt = f'[{x}]{a}[C]{btok}[C]{c}[{y}]'
+                    mols = [f'{x}{a2}C=C{c2}{y}' for a2 in '/\\' for c2 in '/\\'] + [f'{x}C=C{y}']
+                    for mt in mols:
+                        try:
+                            exp, got = cistrans_case(qt, mt)
+                        except Exception as e:
+                            bad.append(((qt, mt), f'{qt} on {mt}: {type(e).__name__}: {e}'))
+                            continue
+                        if exp != got:
+                            bad.append(((qt, mt), f'{qt} on {mt}: same configuration expected {"match" if exp else "no match"}, '
+                                                  f'get_mapping says {"match" if got else "no match"}'))
+    return bad
 
 
 def bond_search(ctx, t_end, texts):
@@ -1263,6 +1341,17 @@ def probe(inp):
         if out[0] == 'err':
             return out[1] != 'IncorrectSmarts', f'smarts({inp["smarts"]!r}) raises {out[1]}' + (f' (from {out[2]})' if out[2] else '')
         return False, f'smarts({inp["smarts"]!r}) is accepted'
+    if kind == 'cistrans':
+        try:
+            exp, got = cistrans_case(inp['smarts'], inp['smiles'])
+        except Exception as e:
+            return True, f'{inp["smarts"]} on {inp["smiles"]}: {type(e).__name__}: {e}'
+        return exp != got, f'{inp["smarts"]} on {inp["smiles"]}: expected {"match" if exp else "no match"}, got {"match" if got else "no match"}'
+    if kind == 'must_reject':
+        out = real_smarts_outcome(inp['smarts'])
+        if out[0] == 'ok':
+            return True, f'smarts({inp["smarts"]!r}) is accepted although the documentation excludes it'
+        return out[1] != 'IncorrectSmarts', f'smarts({inp["smarts"]!r}) raises {out[1]}'
     if kind == 'accept':
         t = inp['smarts']
         body = t.split()[0]
